@@ -15,7 +15,10 @@ from checks import c01
 
 PRELUDE = """
 use ::core::marker::PhantomData;
-pub trait B1 {} pub trait B2 {} pub trait B3 {}
+pub trait B1 {} pub trait B3 {}
+// B2 is a different trait whose path ends in the same identifier as B1's (`alt::B1`); half of the programs spell it that way
+pub mod alt { pub trait B1 {} }
+pub use alt::B1 as B2;
 pub struct PAll; pub struct PNo1; pub struct PNo2; pub struct PNo3; pub struct PNone;
 pub struct PNoSync(pub ::core::cell::Cell<u8>);
 pub struct PNoSend(pub PhantomData<::std::sync::MutexGuard<'static, ()>>);
@@ -25,8 +28,8 @@ sat!(PAll: B1 B2 B3); sat!(PNo1: B2 B3); sat!(PNo2: B1 B3); sat!(PNo3: B1 B2); s
 UNIMOCK_PRELUDE = "impl B1 for ::unimock::Unimock {} impl B2 for ::unimock::Unimock {} impl B3 for ::unimock::Unimock {}\n"
 
 
-def fn_text(name, d, vis=""):
-    S = sorted(d["S"])
+def fn_text(name, d, vis="", alt=False):
+    S = [("alt::B1" if (alt and b == "B2") else b) for b in sorted(d["S"])]
     byvalue = d["byvalue"]
     amp = "" if byvalue else "&"
     plus = " + ".join(S)
@@ -46,11 +49,12 @@ def fn_text(name, d, vis=""):
 def render(c):
     i = c["in"]
     cid = c["case"]
+    alt = int(cid) % 2 == 0
     if i["mode"] == "fn":
-        item = fn_text("f", i["fns"][0])
+        item = fn_text("f", i["fns"][0], alt=alt)
     else:
-        fns = "\n".join("    " + fn_text(f"f{k + 1}", d, vis="pub ") for k, d in enumerate(i["fns"]))
-        item = f"pub mod m {{\n    use crate::{{B1, B2, B3}};\n{fns}\n}}"
+        fns = "\n".join("    " + fn_text(f"f{k + 1}", d, vis="pub ", alt=alt) for k, d in enumerate(i["fns"]))
+        item = f"pub mod m {{\n    #[allow(unused_imports)] use crate::{{B1, B2, B3, alt}};\n{fns}\n}}"
     probes = []
     for pr in c["probes"]:
         ty = f"crate::P{pr['name']}"
@@ -59,7 +63,7 @@ def render(c):
         key = f"{pr['name']}:{pr['shape']}"
         probes.append(f'    ::vt::emit("avail", &format!("\\"probe\\":\\"{key}\\",\\"has\\":{{}}", ::vt::has_impl!({ty}: T)));')
     body = "\n".join(probes)
-    return f"""use crate::{{B1, B2, B3}};
+    return f"""#[allow(unused_imports)] use crate::{{B1, B2, B3, alt}};
 #[::entrait::entrait({c['attr']})]
 {item}
 pub fn run() {{
